@@ -12,6 +12,7 @@ at every step) and checks the final state: literals non-zero integers in
 range, declared count = the documented one (Families.tla / Transform.tla).
 """
 import numbers
+import os
 import random as _random
 
 from . import common, gen, tlc, cliargs
@@ -325,6 +326,60 @@ def main(argv=None):
                 emit("cli-%s-%d" % (tool, j), fam, par, None, None, chain, F, "ok")
             except BaseException as e:
                 emit("cli-%s-%d" % (tool, j), fam, par, None, None, chain, None, type(e).__name__)
+    # random k-CNF / k-XOR, including requests that exhaust the rejection sampler (dense fallback)
+    from math import comb
+    rnd = []
+    for k, n in ((2, 4), (3, 4), (2, 5), (3, 5), (3, 6), (1, 3)):
+        full = comb(n, k) * 2 ** k
+        for m in (0, 3, full // 2, full - 1, full):
+            rnd.append(("RandomKCNF", k, n, m, None))
+        fullx = comb(n, k) * 2
+        for m in (0, 2, fullx - 1, fullx):
+            rnd.append(("RandomKXOR", k, n, m, None))
+    for k, n, npl, frac in ((3, 12, 4, .9), (2, 14, 3, .95), (3, 9, 2, 1.0), (2, 8, 1, 1.0)):
+        planted = [[ck.rng.choice((-1, 1)) * v for v in range(1, n + 1)] for _ in range(npl)]
+        import itertools
+        adm = sum(1 for vs in itertools.combinations(range(1, n + 1), k) for sg in itertools.product((1, -1), repeat=k)
+                  if all(any((s * v) in pa for s, v in zip(sg, vs)) for pa in [set(p) for p in planted]))
+        rnd.append(("RandomKCNF", k, n, int(adm * frac), planted))
+    for j, (fn, k, n, m, planted) in enumerate(rnd):
+        for cname, cls in (("CNF", cnfgen.CNF), ("OPB", OPB)):
+            try:
+                kw = {"planted_assignments": planted} if planted else {}
+                F = getattr(cnfgen, fn)(k, n, m, seed=ck.seed + j, formula_class=cls, **kw)
+                emit("rand-%s-%d-%d-%d-%d-%s" % (fn, k, n, m, j, cname), "none", {"n0": n}, None, None, [], F, "ok")
+            except ValueError:
+                pass        # a refusal (m beyond the admissible clauses) builds no formula: C13's business
+            except Exception as e:
+                emit("rand-%s-%d-%d-%d-%d-%s" % (fn, k, n, m, j, cname), "none", {"n0": n}, None, None, [], None, type(e).__name__)
+    ck.count("random_formula_objects", len(rnd) * 2)
+    # histories of the store machine itself (direction A): every behaviour of Store.tla of a given
+    # depth is replayed into a real CNF and a real OPB; the recorded event log is judged like the others
+    hcfg = os.path.join(tlc.workdir("C10"), "store_export.cfg")
+    with open(hcfg, "w") as f:
+        f.write("SPECIFICATION Spec\nCONSTANTS MaxVar = 3\n  Depth = %d\n  Discipline = TRUE\nINVARIANT Emit\nCHECK_DEADLOCK FALSE\n"
+                % (3 if ck.quick else 4))
+    hists = ck.export("Store", hcfg)
+    if len(hists) < 100:
+        raise tlc.MachineryError("store histories not exported")
+    for j, h in enumerate(hists):
+        for cname, cls in (("CNF", cnfgen.CNF), ("OPB", OPB)):
+            F = cls()
+            outcome = "ok"
+            try:
+                for c in h:
+                    if c["act"] == "insert":
+                        mv = c["mv"]
+                        clause = [] if mv == 0 else ([-mv] if mv == 1 else [1, -mv])
+                        F.add_clause(clause, check=bool(c["checked"]))
+                    elif c["act"] == "group":
+                        F.new_block(c["len"], label="b%d_{}" % j)
+                    else:
+                        F.update_variable_number(c["k"])
+            except Exception as e:
+                outcome = type(e).__name__
+            emit("hist-%05d-%s" % (j, cname), "none", {"n0": h[-1]["nv"]}, None, None, [], F, outcome)
+    ck.count("store_histories_replayed", len(hists) * 2)
     ck.count("formula_objects_traced", len(records))
     ck.count("events_recorded", sum(len(r["events"]) for r in records))
     ck.count("clause_insertions_aggregated", sum(e.get("count", 0) for r in records for e in r["events"]))
